@@ -79,7 +79,7 @@ def run(ctx):
     for f in F.fns.values():
         for v in f.vars:
             if v.startswith(PEN + "::") or v.startswith(SV + "PendingSubintentSignatureValidations::"):
-                ctors.setdefault((f.root, v.rsplit("::", 1)[1]), f)
+                ctors.setdefault((f.root, v.rsplit("::", 1)[-1]), f)
     for (root, var), f in sorted(ctors.items()):
         prev = var.startswith("Preview")
         src_preview = "preview" in root.lower() or "for_subintent" in root
